@@ -201,10 +201,10 @@ class FindingSink:
         self.by_key: dict = {}
         self.counts: dict = {}
 
-    def add(self, finding) -> None:
+    def add(self, finding, cap: int | None = None) -> None:
         self.counts[finding.key] = self.counts.get(finding.key, 0) + 1
         lst = self.by_key.setdefault(finding.key, [])
-        if len(lst) < self.per_key:
+        if len(lst) < (cap or self.per_key):
             lst.append(finding)
 
     def findings(self) -> list:
@@ -217,3 +217,13 @@ class FindingSink:
 def short(s, n: int = 300) -> str:
     s = str(s).replace('\n', ' ')
     return s if len(s) <= n else s[:n - 3] + '...'
+
+
+def signum(detail: str) -> int:
+    """'SIGSEGV' (as produced by ChildResult.signame) -> 11"""
+    name = detail.split()[0] if detail else ''
+    try:
+        return int(signal.Signals[name].value)
+    except KeyError:
+        digits = ''.join(ch for ch in detail if ch.isdigit())
+        return int(digits) if digits else 0
